@@ -94,7 +94,27 @@ def run(prog, rep, tier, repo):
             else:
                 rep.viol('conformable', key, '%s does not compare the inner dimensions %s and %s before multiplying: non-conformable operands whose '
                          'first factor is narrower yield a value instead of a panic' % (fn, show(inner_a)[:50], show(inner_b)[:50]), site_of(f.body))
-    rep.floor('conformable', 6, '2 kernels x 3 non-recursive flag combinations')
+    # the vector . vector kernel: equal lengths on every path that returns a value (a loop that indexes both slices up to len(x) panics
+    # only when y is the shorter one; with y longer it returns a truncated sum)
+    f = prog.func(U + 'dot')
+    key = 'conformable:dot'
+    if f is None:
+        rep.viol('conformable', key, 'linalg::utils::dot disappeared')
+    else:
+        rep.touch(f.body.key)
+        ix = IdxFunc(prog, f)
+        x_, y_ = ('arg', 1, f.names.get(1)), ('arg', 2, f.names.get(2))
+        lx, ly = ('len', x_), ('len', y_)
+        ok = bool(f.cfg.returns)
+        for bb in f.cfg.returns:
+            if not ix.equalities(bb).same(lx, ly):
+                ok = False
+        if ok:
+            rep.ok('conformable', key, 'len(x) == len(y) holds at every return of dot')
+        else:
+            rep.viol('conformable', key, 'dot(x, y) can return a value without len(x) == len(y) having been established: vectors of different length are '
+                     'not rejected (the longer second operand is silently truncated)', site_of(f.body))
+    rep.floor('conformable', 7, '2 kernels x 3 non-recursive flag combinations + dot')
 
     # xtx
     f = prog.func(U + 'xtx')
